@@ -81,6 +81,12 @@ def claim (b : Bank) (g : Nat) : Option (Bank × Nat × List Nat) :=
       some ({ b with balances := rs.map (·.2.1), remaining := b.remaining - g },
             (rs.map (·.2.2)).sum, rs.map (·.1))
 
+/-- `CompleteGtExchange` accounts: `gt_bank` has `has_one = gt_exchange_vault`, and the store's `close_gt_exchange` CPI
+requires the exchange to belong to that same vault account — so the bank that pays is the bank of the exchange's own
+vault. `bankVault` = the vault recorded in the supplied bank, `exVault` = the vault of the exchange being completed. -/
+def claimWith (bankVault exVault : Nat) (b : Bank) (g : Nat) : Option (Bank × Nat × List Nat) :=
+  if bankVault ≠ exVault then none else claim b g
+
 /-- a history of claim attempts; failed ones change nothing. Returns the final bank and the
 trace `(gt amount, per-token payouts)` of the successful ones. -/
 def runClaims (b : Bank) : List Nat → Bank × List (Nat × List Nat)
